@@ -176,7 +176,7 @@ func (s *Scheduler) AddJob(jobConfig *JobConfiguration) error {
 		return err
 	}
 
-	err = s.Store.StoreObject(server.JobConfigIndex, jobConfig.ID, jobConfig) // store it for the future
+	err = s.Store.StoreObject(server.JobConfigIndex, jobConfig.ID, storedForm(jobConfig)) // store it for the future
 	if err != nil {
 		return err
 	}
@@ -200,6 +200,29 @@ func (s *Scheduler) AddJob(jobConfig *JobConfiguration) error {
 	})
 
 	return g.Wait()
+}
+
+// storedForm is the definition as it is persisted: verify rescales the retry delay of reRun handlers from the
+// configured seconds to nanoseconds for the running job. The stored definition keeps the configured unit, so that
+// adding it again when it is loaded (restart, pause, resume) does not rescale it a second time.
+func storedForm(jobConfig *JobConfiguration) *JobConfiguration {
+	stored := *jobConfig
+	stored.Triggers = make([]JobTrigger, len(jobConfig.Triggers))
+	for i, t := range jobConfig.Triggers {
+		if t.ErrorHandlers != nil {
+			ehs := make(ErrorHandlers, len(t.ErrorHandlers))
+			for k, eh := range t.ErrorHandlers {
+				c := *eh
+				if c.Type == ErrorHandlerReRun {
+					c.RetryDelay = c.RetryDelay / int64(time.Second)
+				}
+				ehs[k] = &c
+			}
+			t.ErrorHandlers = ehs
+		}
+		stored.Triggers[i] = t
+	}
+	return &stored
 }
 
 // extractJobs extracts the jobs configured in the JobConfiguration and extracts them as a
